@@ -41,6 +41,13 @@ def main(argv=None):
     seed = int(os.environ.get("VERIF_SEED", "0") or 0)
     props = ALL if a.prop == "all" else [a.prop.upper()]
     rc = 0
+    if a.repo and os.path.realpath(a.repo) != os.path.realpath("/repo"):
+        # a scratch copy is being analysed: /verif/evidence only ever describes /repo itself
+        import sa.report as _rep
+        import tempfile
+        scratch = tempfile.mkdtemp(prefix="sa_scratch_evidence_")
+        _rep.EVIDENCE_DIR = scratch
+        _rep.REPLAY_DIR = os.path.join(scratch, "replay")
     try:
         repo = Repo(a.repo)
     except AnalysisError as e:
